@@ -499,6 +499,12 @@ zgsitrf(superlu_options_t *options, SuperMatrix *A, int relax, int panel_size,
 		    }
 		    xlsub[jj + 1]++;
 		    assert(xlusup[jj]==xlusup[jj+1]);
+		    /* The value array needs room for this one entry as well. */
+		    if (xlusup[jj] + 1 > Glu->nzlumax) {
+			int_t nzlumax = Glu->nzlumax;
+			int error = zLUMemXpand(jj, xlusup[jj], LUSUP, &nzlumax, Glu);
+			if (error) { *info = error; return; }
+		    }
 		    xlusup[jj + 1]++;
 		    ((doublecomplex *) Glu->lusup)[xlusup[jj]] = zero;
 
